@@ -22,10 +22,45 @@ ASSUMPTIONS = [
 N = {"quick": (3000, 250), "thorough": (100000, 8000)}
 
 
+def acceptance(ck, cmd, n):
+    out = ck.harness(cmd, n, timeout=7000)
+    if out is None:
+        return
+    impl = common.read_lines(os.path.join(out, "impl.txt"))
+    srcs = common.read_lines(os.path.join(out, "src.txt"))
+    shrunk = {}
+    p = os.path.join(out, "shrunk.txt")
+    if os.path.exists(p):
+        for l in common.read_lines(p):
+            m = re.match(r'"((?:[^"\\]|\\.)*)" "((?:[^"\\]|\\.)*)"', l)
+            if m and m.group(1) not in shrunk:
+                shrunk[m.group(1)] = unq(m.group(2))
+    reported = set()
+    for i, (a, s) in enumerate(zip(impl, srcs)):
+        ck.case(s, nontrivial=("helper" in s or "loop" in s or "switch" in s or "if " in s or "ptr<" in s or "mat" in s))
+        if i < 1:
+            ck.samples.append({"wgsl": unq(s[1:-1])[:1500], "result": a})
+        if a == "ok":
+            continue
+        cls = re.sub(r"[0-9]", "N", a.strip().split(";")[0].strip())
+        if cls in reported:
+            continue
+        reported.add(cls)
+        fid = None
+        for k in ck.known:
+            if re.search(k.get("match", {}).get("error_class_regex", "$^"), cls):
+                fid = k["id"]
+        ck.violation({"kind": "valid-program-rejected", "finding": fid, "error_class": cls, "result": a,
+                      "wgsl_shrunk": shrunk.get(cls), "wgsl": unq(s[1:-1]),
+                      "how": "a generated valid WGSL program is rejected by a stage/backend"}, found_input=True)
+
+
 def run(ck):
     ck.rule = ("(a) statement skeletons depth<=4 over brk/cont/ret/kill/other/block/if/switch/loop, and binding tables with "
                "1-5 globals, 0-3 helpers (cycles allowed), 1-3 entry points; (b) generated compute modules (helpers, ptr "
-               "params, structs, switch/loop/for/while/continuing/break-if, builtins, conversions); distinct by case text; "
+               "params, structs, switch/loop/for/while/continuing/break-if, builtins, conversions); (c) call signatures: by-value / pointer "
+               "parameters of scalar, vector, (non-)square matrix, array, nested struct types x argument forms (variable, let, zero value, "
+               "member / element / column, &x, &s.m, &a[i], &m[c]; function and private space); distinct by case text; "
                "non-trivial = contains at least one loop or switch / at least one helper or control-flow statement")
     ck.trusted = ["Lean kernel", "axioms: propext, Classical.choice, Quot.sound", "WGSL rule transcription (Validate.spec*)",
                   "Go harness (skeleton/module builders, WGSL generator, shrinker)"]
@@ -54,37 +89,9 @@ def run(ck):
                     ck.violation({"kind": "validator-rule-mismatch", "case": c, "expected_wgsl_rule": b, "observed": a,
                                   "how": "ir.Validate's diagnostics differ from the WGSL rule on this statement tree / binding table"},
                                  found_input=True)
-    # acceptance sweep
-    out = ck.harness("c08", nprog, timeout=7000)
-    if out is None:
-        return
-    impl = common.read_lines(os.path.join(out, "impl.txt"))
-    srcs = common.read_lines(os.path.join(out, "src.txt"))
-    shrunk = {}
-    p = os.path.join(out, "shrunk.txt")
-    if os.path.exists(p):
-        for l in common.read_lines(p):
-            m = re.match(r'"((?:[^"\\]|\\.)*)" "((?:[^"\\]|\\.)*)"', l)
-            if m and m.group(1) not in shrunk:
-                shrunk[m.group(1)] = unq(m.group(2))
-    reported = set()
-    for i, (a, s) in enumerate(zip(impl, srcs)):
-        ck.case(s, nontrivial=("helper" in s or "loop" in s or "switch" in s or "if " in s))
-        if i < 1:
-            ck.samples.append({"wgsl": unq(s[1:-1])[:1500], "result": a})
-        if a == "ok":
-            continue
-        cls = re.sub(r"[0-9]", "N", a.strip().split(";")[0].strip())
-        if cls in reported:
-            continue
-        reported.add(cls)
-        fid = None
-        for k in ck.known:
-            if re.search(k.get("match", {}).get("error_class_regex", "$^"), cls):
-                fid = k["id"]
-        ck.violation({"kind": "valid-program-rejected", "finding": fid, "error_class": cls, "result": a,
-                      "wgsl_shrunk": shrunk.get(cls), "wgsl": unq(s[1:-1]),
-                      "how": "a generated valid WGSL program is rejected by a stage/backend"}, found_input=True)
+    # acceptance sweeps: generated programs, then call signatures (parameter type shapes x argument forms)
+    for cmd, n in (("c08", nprog), ("c08sig", max(300, nprog // 2))):
+        acceptance(ck, cmd, n)
     # known findings must still reproduce on their recorded witness
     for k in ck.known:
         w = k.get("witness")
